@@ -43,18 +43,18 @@ func (c memClass) String() string {
 }
 
 type effects struct {
-	p        *Program
-	prog     *ssa.Program
-	fns      []*ssa.Function
-	inLib    map[*ssa.Function]bool
-	exposed  map[*ssa.Function]bool // parameters may come from outside the module
-	cls      map[ssa.Value]memClass // class of the memory a pointer-like value refers to
-	contents map[ssa.Value]memClass // per root: class of pointer-like values stored into it
-	callers  map[*ssa.Function][]ssa.CallInstruction
-	fieldFns map[*types.Var][]*ssa.Function // functions stored into a func-typed struct field
-	closures map[*ssa.Function][]*ssa.MakeClosure
+	p         *Program
+	prog      *ssa.Program
+	fns       []*ssa.Function
+	inLib     map[*ssa.Function]bool
+	exposed   map[*ssa.Function]bool // parameters may come from outside the module
+	cls       map[ssa.Value]memClass // class of the memory a pointer-like value refers to
+	contents  map[ssa.Value]memClass // per root: class of pointer-like values stored into it
+	callers   map[*ssa.Function][]ssa.CallInstruction
+	fieldFns  map[*types.Var][]*ssa.Function // functions stored into a func-typed struct field
+	closures  map[*ssa.Function][]*ssa.MakeClosure
 	boundRecv map[*ssa.Function][]ssa.Value // method -> receivers its method values were bound to
-	changed  bool
+	changed   bool
 }
 
 func libPath(path string) bool { return path == PathPQL || path == PathParser }
